@@ -1078,6 +1078,7 @@ def mutants():
                 "        charEncoding = lookupEncoding(self.transport_encoding), \"certain\"\n"
                 "        if charEncoding[0] is not None:\n            return charEncoding\n\n")
     return [
+        T("prescan-eob-is-end-of-tag", REL, "        if c is None:\n            # ran off the end of the buffer inside a tag\n            raise StopIteration\n        if c == b\">\":\n            return None\n", "        if c in (b\">\", None):\n            return None\n", "C06.17"),
         T("prescan-single-read", REL, "        # a source may hand the bytes out in pieces\n        while len(buffer) < self.numBytesMeta:\n            more = self.rawStream.read(self.numBytesMeta - len(buffer))\n            if not more:\n                break\n            buffer += more\n", "", "C06.20"),
         T("late-meta-charset-presence-only", "html5parser.py", "            if (\"charset\" in attributes and\n                    _inputstream.lookupEncoding(attributes[\"charset\"]) is not None):", "            if \"charset\" in attributes:", "C06.7"),
         T("prescan-user-defined-unmapped", REL, "        elif encoding is not None and encoding.name == \"x-user-defined\":\n            encoding = lookupEncoding(\"windows-1252\")\n", "", "C06.16"),
